@@ -248,10 +248,11 @@ func scanFaultOracle(sc *scanCase) (ok bool, key, detail string) {
 			bytes.Contains(sc.data, []byte("#")) && len(sc.data) > 4096 {
 			key = "C19-tryhex-peek-error-ignored"
 		}
-		// finding ROB-6: ReadObject ignores the error of the PeekN(6) that looks for
-		// "stream" behind a dictionary (scanner.go `buf, _ = s.PeekN(6)`): when the
-		// reader fails inside the keyword, the stream's dictionary is returned as a
-		// plain dictionary with a nil error (the error stays latched in the scanner)
+		// former finding ROB-6 (fixed upstream as D35; the class key is kept as a
+		// regression detector): ReadObject ignored the error of the PeekN(6) that
+		// looks for "stream" behind a dictionary (`buf, _ = s.PeekN(6)`): when the
+		// reader failed inside the keyword, the stream's dictionary was returned as a
+		// plain dictionary with a nil error
 		if len(fp) == 3 && fp[0] == "o" && fp[1] == "ok" {
 			if n, err := strconv.Atoi(fp[2]); err == nil && n >= 2 && n <= len(sc.data) &&
 				bytes.HasPrefix(sc.data[n:], []byte("stream")) && bytes.Contains(sc.data[:n], []byte(">>")) {
